@@ -98,7 +98,7 @@ impl<const N: usize> CobsAccumulator<N> {
         dict(kind="fn", file=F, within=IMPL, name="feed_ref", qual="postcard::accumulator::CobsAccumulator::feed_ref",
              rewrites=[
                  (r"where\s+T: Deserialize<'de>,", "", 1, 1),                                   # D6
-                 (r"input\.iter\(\)\.position\(\|&i\| i == 0\)", "position_zero(input)", 1, 1),   # D4
+                 (r"(\w+)\.iter\(\)\.position\(\|&(\w+)\| \2 == 0\)", r"position_zero(\1)", 1, 1),   # D4
                  (r"crate::from_bytes_cobs::<T>", "from_bytes_cobs::<T>", 1, 1),                  # D5
              ],
              sig=FEED_SIG,
